@@ -195,18 +195,18 @@ theorem pyBounds_neg_range (r : SliceRange) (n : Nat) (ht : r.step < 0) :
     have hE := pyAdjust_range_neg e r.step n ht
     simp only [pyBounds]; omega
 
-/-- **T3 (index_range, negative step)**: either the adjusted start is "before the first
+/-- Pre-fix `index_range`, negative step: either the adjusted start is "before the first
 element" (`-1`: `start < -n`, or `n = 0`) and the code panics, or it enumerates exactly
 CPython's indices. -/
-theorem indexRange_neg (r : SliceRange) (n : Nat) (ht : r.step < 0) :
-    (r.indexRange n = .error .panic ∧ (pyBounds r.start r.stop r.step n).1 = -1) ∨
-    (∃ ir, r.indexRange n = .ok ir ∧ ir.toList = pyIndices r.start r.stop r.step n ∧
+theorem indexRangeOld_neg (r : SliceRange) (n : Nat) (ht : r.step < 0) :
+    (r.indexRangeOld n = .error .panic ∧ (pyBounds r.start r.stop r.step n).1 = -1) ∨
+    (∃ ir, r.indexRangeOld n = .ok ir ∧ ir.toList = pyIndices r.start r.stop r.step n ∧
       ir.steps = pyCount r.start r.stop r.step n ∧ (pyBounds r.start r.stop r.step n).1 ≠ -1) := by
   have hrc := resolveClamped_eq r n
   have hpos : ¬ r.step > 0 := by omega
   simp only [hpos, ht, if_true, if_false] at hrc
   have hR := pyBounds_neg_range r n ht
-  unfold SliceRange.indexRange
+  unfold SliceRange.indexRangeOld
   rw [hrc]
   simp only [hpos, if_false]
   rcases hb : pyBounds r.start r.stop r.step n with ⟨S, E⟩
@@ -229,6 +229,51 @@ theorem indexRange_neg (r : SliceRange) (n : Nat) (ht : r.step < 0) :
       congr 1
       omega
     refine ⟨?_, hcount, hS⟩
+    simp only [IndexRange.toList, pyIndices, hcount, hb]
+    apply List.map_congr_left
+    intro j _
+    congr 2
+    omega
+
+/-- **T3 (index_range, negative step)**: never fails and enumerates exactly CPython's indices
+(the underflow branch is unreachable after fix `6e0e117`). -/
+theorem indexRange_neg (r : SliceRange) (n : Nat) (ht : r.step < 0) :
+    ∃ ir, r.indexRange n = .ok ir ∧ ir.toList = pyIndices r.start r.stop r.step n ∧
+      ir.steps = pyCount r.start r.stop r.step n := by
+  have hrc := resolveClamped_eq r n
+  have hpos : ¬ r.step > 0 := by omega
+  simp only [hpos, ht, if_true, if_false] at hrc
+  have hR := pyBounds_neg_range r n ht
+  unfold SliceRange.indexRange
+  rw [hrc]
+  simp only [hpos, if_false]
+  rcases hb : pyBounds r.start r.stop r.step n with ⟨S, E⟩
+  rw [hb] at hR
+  simp only at hR
+  by_cases hSE : S ≤ E
+  · -- nothing selected: the resolved range is empty
+    rw [if_pos (by omega)]
+    refine ⟨_, rfl, ?_⟩
+    have hc : pyCount r.start r.stop r.step n = 0 := by
+      simp only [pyCount, hb, ht, if_true]
+      rw [if_neg (by omega)]
+    have hs : (IndexRange.mk 0 0 r.step).steps = 0 := by
+      simp only [IndexRange.steps, hpos, if_false]
+      apply Nat.div_eq_of_lt
+      omega
+    refine ⟨?_, by rw [hs, hc]⟩
+    simp [IndexRange.toList, pyIndices, hs, hc]
+  · rw [if_neg (by omega), if_neg (by omega)]
+    refine ⟨_, rfl, ?_⟩
+    have hcount : (IndexRange.mk (n - 1 - ((n : Int) - 1 - S).toNat)
+        (max ((n : Int) - 1 - ((max ((n : Int) - 1 - E) ((n : Int) - 1 - S)).toNat : Int)) (-1)) r.step).steps
+        = pyCount r.start r.stop r.step n := by
+      have key := count_eq E S (-r.step) (by omega)
+      simp only [IndexRange.steps, pyCount, hb, ht, hpos, if_true, if_false]
+      rw [← key, Int.natAbs_neg]
+      congr 1
+      omega
+    refine ⟨?_, hcount⟩
     simp only [IndexRange.toList, pyIndices, hcount, hb]
     apply List.map_congr_left
     intro j _
